@@ -13,6 +13,45 @@ PROPS = ["C06"]
 IPS = ["1.2.3.4", "200.100.50.25", "2001:db8::17", "0::1", "fe80::1:2:3:4", "1:2:3:4:5:6:7:8"]
 
 
+def _many_worker(a):
+    """Many configured services (around the width of the per-client service masks): every one of them must be asked."""
+    import proto
+    b, n, seed = a["build"], a["n"], a["seed"]
+    rng = random.Random(seed)
+    protos = ["login", "dronecheck", "login-ipr", "combined"]
+    svcs = [("s%02d.example.net" % k, protos[(k + seed) % 4] if a["mixed"] else "login") for k in range(n)]
+    rng.shuffle(svcs)
+    cfg = proto.Config(svcs, timeout=3600)
+    s = proto.Session(b, cfg, leaks=True)
+    try:
+        for cid in (5, 6, 7):
+            evs = [{"t": "announce", "id": cid, "ip": "192.0.2.%d" % cid, "port": 1000 + cid},
+                   {"t": "host", "id": cid, "name": "h%d.example" % cid}, {"t": "ident", "id": cid, "name": "id%d" % cid},
+                   {"t": "nick", "id": cid, "name": "nick%d" % cid}, {"t": "userinfo", "id": cid, "user": "u%d" % cid, "real": "Real %d" % cid},
+                   {"t": "password", "id": cid, "text": "+x acct%d pw%d" % (cid, cid)}]
+            tail = evs[1:]
+            rng.shuffle(tail)
+            for ev in evs[:1] + tail:
+                s.do(ev)
+            # answers in random order; the last one releases the client
+            st = s.open.get(cid)
+            while st and st["awaiting"] and cid in s.open and not s.dead:
+                sv = rng.choice(sorted(st["awaiting"]))
+                s.do({"t": "reply", "svc": sv, "tag": st["tag"], "text": "OK"})
+                st = s.open.get(cid)
+            if cid in s.open:
+                s.do({"t": "hurry", "id": cid})
+        s.do({"t": "stats"})
+        s.finish()
+    except Exception:
+        s.kill()
+        raise
+    r = prun.post(s, b, cfg, a.get("props", PROPS), seed, do_shrink=False, want_sample=False)
+    r["stats"]["many_service_tables"] = 1
+    r["stats"]["services_in_many_service_tables"] = n
+    return r
+
+
 def run(chk, tier, scale=1.0):
     b = prun.build_daemon("c06-" + tier)
     rng = random.Random("c06x/%d" % chk.seed)
@@ -36,6 +75,13 @@ def run(chk, tier, scale=1.0):
     opts = {"weights": {"dupdata": 8, "password": 16, "reply": 22, "hurry": 5, "stray": 2}, "boundary": 0.7, "wellformed_pw": 0.6}
     jobs = pcommon.hist_jobs(b, n, chk.seed, PROPS, opts=opts, tag="c06", want_class=False)
     prun.fold(chk, "C06", vcommon.pmap(prun.hist_worker, jobs, chunksize=4))
+    # service tables around the width of the per-client masks (31, 32 services; and beyond): half of them on an unsanitized build,
+    # where a shift past the mask width shows as the query that is never sent instead of aborting the daemon
+    import build as buildmod
+    bplain = buildmod.build_daemon(buildmod.fresh_dir("c06p-" + tier), "plain")
+    mjobs = [dict(build=(bplain if k % 2 else b), n=n, seed=chk.seed * 100 + k, mixed=(k % 4 < 2))
+             for k, n in enumerate([8, 16, 31, 32, 31, 32, 33, 40] * (1 if tier == "quick" else 6))]
+    prun.fold(chk, "C06", vcommon.pmap(_many_worker, mjobs))
     chk.rule = ("all 120 arrival orders x service tables (each of login, login-ipr, dronecheck, combined alone and mixed) x reply policies x hurry-up / timeout positions, "
                 "fields at limit-1 / limit / limit+1 bytes (nick 30, user 10 with and without ~, ident incl. empty, host 63, real name 50), IPv4 and IPv6 clients, malformed "
                 "passwords of every kind followed by well-formed ones, second N/u/n/U lines, challenge responses; rules per X line: service configured, verb fits its protocol, "
